@@ -30,6 +30,7 @@ class World(object):
                        max_vtime_us=sc.get('max_vtime_us', 3600 * 10**6),
                        trace=scenario.get('trace', False))
         self.sim.line_mute = sc.get('granularity', 'line') == 'io'
+        self.sim.wall_jumps = scenario.get('wall_jumps')
         self.server = Server(self.sim, scenario.get('server', {}))
         self.net = Net(self.sim, self.server, scenario.get('net', {}))
         self.rand = make_rng('rand', scenario.get('rand_seed', 0))
